@@ -17,6 +17,7 @@
 Audio recording input and playing output module
 """
 
+import sys
 import threading
 import struct
 import array
@@ -115,18 +116,26 @@ def chunks(seq, size=None, dfmt="f", byte_order=None, padval=0.):
   chunk = array.array(dfmt, xrange(size))
   # array.tostring was renamed to array.tobytes (and removed in Python 3.9)
   tobytes = chunk.tobytes if hasattr(chunk, "tobytes") else chunk.tostring
+  # Arrays are stored in the native byte order, swaps the bytes when asked for
+  # the other one (same meaning of "<", ">" and "!" as in the struct module)
+  swap = {"<": "big", ">": "little",
+          "!": "little"}.get(byte_order) == sys.byteorder
   idx = 0
 
   for el in seq:
     chunk[idx] = el
     idx += 1
     if idx == size:
+      if swap:
+        chunk.byteswap()
       yield tobytes()
       idx = 0
 
   if idx != 0:
     for idx in xrange(idx, size):
       chunk[idx] = padval
+    if swap:
+      chunk.byteswap()
     yield tobytes()
 
 
